@@ -9,7 +9,8 @@ def showOut : Out → String
   | .panicMul => "panic-mul"
   | .badOp => "bad-op"
 
-def step (s : State) (ws : List String) : State × String :=
+def step (sd : State × Dec) (ws : List String) : (State × Dec) × String :=
+  let (s, d) := sd
   let op : Option Op :=
     match ws with
     | ["alloc", c, sz] => do pure (.alloc (← c.toNat?) (← sz.toNat?))
@@ -17,16 +18,30 @@ def step (s : State) (ws : List String) : State × String :=
     | ["expand", n] => do pure (.expand (← n.toNat?))
     | ["shrink", n] => do pure (.shrink (← n.toNat?))
     | _ => none
+  let showDec := fun (d : Dec) => s!"total={d.tr.limit} out={outstanding d.tr} cur={d.current}"
   match ws, op with
   | ["init", l], _ =>
     match l.toNat? with
-    | some l => (init l, s!"ok left={l} live=0")
-    | none => (s, "bad-op")
+    | some l => ((init l, d), s!"ok left={l} live=0")
+    | none => (sd, "bad-op")
+  -- `JxlDecoder::new` with `out` bytes held by the freshly read image
+  | ["dnew", out], _ =>
+    match out.toNat? with
+    | some out =>
+      let d' := decStep Dec.init (.tracker (.alloc out 1))
+      ((s, d'), s!"new {showDec d'}")
+    | none => (sd, "bad-op")
+  | ["dset", n], _ =>
+    match (if n == "none" then some (W - 1) else n.toNat?) with
+    | some n =>
+      let (d', ok) := setLimits d n
+      ((s, d'), s!"{if ok then "ok" else "refused"} {showDec d'}")
+    | none => (sd, "bad-op")
   | _, some op =>
     let (s', o) := Alloc.step s op
-    (s', s!"{showOut o} left={s'.left} live={s'.handles.length}")
-  | _, none => (s, "bad-op")
+    ((s', d), s!"{showOut o} left={s'.left} live={s'.handles.length}")
+  | _, none => (sd, "bad-op")
 
-def main : IO Unit := runLoop (init 0) step
+def main : IO Unit := runLoop (init 0, Dec.init) step
 
 end Jxl.Driver.C13
